@@ -347,7 +347,7 @@ class Session(BusSession):
 
 def run(ctx):
     quick = ctx.tier == 'quick'
-    st = explore.bfs(ctx, FACTORY, {'small': quick}, max_depth=4 if quick else 5, ops_chunk=8)
+    st = explore.bfs(ctx, FACTORY, {'small': quick}, max_depth=5 if quick else 6, ops_chunk=8)
     ctx.coverage.update({
         'states': st['states'], 'transitions': st['transitions'], 'traces_validated_against_impl': st['transitions'],
         'completed_depth': st['completed_depth'], 'fixpoint': st['fixpoint'],
